@@ -281,6 +281,24 @@ func GenDataset(r *Rng, w Window, lookback int64, maxSeries int, hostile, withHi
 				d.Series = append(d.Series, Series{Labels: ls, Samples: sm})
 			}
 		}
+		if r.P(0.3) {
+			// a second histogram metric with the labels of the first
+			for _, s := range d.Series {
+				if s.Labels["__name__"] != "h_bucket" {
+					continue
+				}
+				ls := map[string]string{}
+				for k, v := range s.Labels {
+					ls[k] = v
+				}
+				ls["__name__"] = "g_bucket"
+				sm := make([]Sample, len(s.Samples))
+				for i, x := range s.Samples {
+					sm[i] = Sample{T: x.T, V: x.V * 2}
+				}
+				d.Series = append(d.Series, Series{Labels: ls, Samples: sm})
+			}
+		}
 	}
 	d.Normalize()
 	return d
@@ -491,6 +509,10 @@ func (q *qgen) instantFn(d int) string {
 			}
 			if r.P(0.2) {
 				arg = q.vector(d - 1)
+			}
+			if g.on("nameless-selector") && r.P(0.12) {
+				// the buckets of several histogram metrics at once (datasets with a second histogram g_bucket)
+				arg = Pick(r, []string{`{__name__=~".+_bucket"}`, `{le=~".+"}`, `rate({__name__=~"h_bucket|g_bucket"}[2m])`})
 			}
 			return fmt.Sprintf("histogram_quantile(%s, %s)", q.phi(d-1), arg)
 		}
